@@ -119,6 +119,12 @@ CHECKS = {
             "every malformed datagram (grammar values in each field, all 1-byte and a grid of 2-byte strings, all truncations, odd command names) followed by a valid query; all arrival orders of silent / partial / garbage / well-behaved TCP clients.",
             "expiry notifications are compared for consistency (pruning is lazy, at the next query); ties in refresh time in any order",
             "E3+E4+E5", "DESIGN.md#c18"),
+    "C17": ("model_checking",
+            "explicit-state BFS over client/server event histories on the real threaded, thread-pool and one-shot servers running on a simulated socket layer under the controlled scheduler, with descriptor/table/hook/thread accounting after every event; schedule exploration of connect racing close",
+            "All histories up to the depth bound over connect / call / graceful close / abrupt close by <= 3 clients and server.close() (twice) at any point, over TCP and unix sockets, each driven to quiescence; "
+            "after close every client sees EOFError promptly, hooks ran once, no descriptor, table entry or server thread is left; a connect racing close() is explored over schedules with <= 2 (quick) / 3 (thorough) preemptions at system-call granularity.",
+            "SimOS models loopback sockets/poll/queue at the level rpyc uses them (kernel-conformance selftest); the forking server is NOT covered: fork, descriptor inheritance and SIGCHLD are not modelled",
+            "E1+E3+E4", "DESIGN.md#c17"),
 }
 
 NOT_APPLICABLE = {}
